@@ -54,6 +54,36 @@ func checkC05(r *Run) {
 	dir, _ := os.MkdirTemp(scratchDir(), "c05-")
 	defer os.RemoveAll(dir)
 
+	// ---- (a0) reference spellings of JSON Schema the abstract model does not produce
+	for i, doc := range c05RefSpellings {
+		sub := filepath.Join(dir, fmt.Sprintf("spell%d", i))
+		_ = os.MkdirAll(sub, 0o755)
+		p := filepath.Join(sub, "pk.json")
+		_ = os.WriteFile(p, []byte(doc), 0o644)
+		cfg := pipeCfg{Inputs: []pipeInput{{Kind: "jsonschema", Path: p, Package: "pk"}}, Types: true, OutDir: filepath.Join(sub, "out"), Langs: []langCfg{{Name: "typescript"}}}
+		pf := filepath.Join(sub, "pipeline.yaml")
+		_ = os.WriteFile(pf, []byte(cfg.YAML()), 0o644)
+		var schemas ast.Schemas
+		var err error
+		pv, _ := guard(func() {
+			var pl *codegen.Pipeline
+			pl, err = codegen.PipelineFromFile(pf, codegen.Parameters(nil))
+			if err == nil {
+				schemas, err = pl.LoadSchemas(context.Background())
+			}
+		})
+		r.Eval()
+		if pv != nil || err != nil {
+			r.Count("reference_spelling_documents_failing(skipped)", 1)
+			continue
+		}
+		r.Distinct("spelling" + doc)
+		r.Count("reference_spelling_documents", 1)
+		for _, dp := range danglingRefs(schemas) {
+			r.Violation("parser/jsonschema/reference-spelling/dangling-"+dp.Kind, fmt.Sprintf("after parsing, %s reference %s.%s at %s does not resolve", dp.Kind, dp.Pkg, dp.Target, dp.Where), map[string]any{"format": "jsonschema", "schema": doc})
+		}
+	}
+
 	// ---- (a) + (d): parser output and allowed_objects, through the pipeline
 	na := r.n(10, 150)
 	for c := 0; c < na; c++ {
@@ -435,4 +465,15 @@ func missingVia(schemas ast.Schemas, allowed, missing []string) string {
 		}
 	})
 	return strings.Join(sortedKeys(kinds), "+")
+}
+
+// c05RefSpellings: JSON Schema documents whose references are spelled in ways the abstract model never renders: the
+// document root is itself a type and is referred to as "#" (from itself, from a definition), a root that is only a
+// reference, mutual recursion between definitions, a definition referring to the root that refers back.
+var c05RefSpellings = []string{
+	`{"$schema":"http://json-schema.org/draft-07/schema#","type":"object","properties":{"name":{"type":"string"},"children":{"type":"array","items":{"$ref":"#"}}}}`,
+	`{"$schema":"http://json-schema.org/draft-07/schema#","type":"object","properties":{"name":{"type":"string"},"leaf":{"$ref":"#/definitions/Leaf"}},"definitions":{"Leaf":{"type":"object","properties":{"parent":{"$ref":"#"}}}}}`,
+	`{"$schema":"http://json-schema.org/draft-07/schema#","$ref":"#/definitions/Node","definitions":{"Node":{"type":"object","properties":{"edges":{"type":"array","items":{"$ref":"#/definitions/Node"}}}}}}`,
+	`{"$schema":"http://json-schema.org/draft-07/schema#","type":"object","properties":{"a":{"$ref":"#/definitions/A"}},"definitions":{"A":{"type":"object","properties":{"b":{"$ref":"#/definitions/B"}}},"B":{"type":"object","properties":{"a":{"$ref":"#/definitions/A"},"byKey":{"type":"object","additionalProperties":{"$ref":"#/definitions/A"}}}}}}`,
+	`{"$schema":"http://json-schema.org/draft-07/schema#","type":"object","properties":{"self":{"$ref":"#"},"maybe":{"oneOf":[{"$ref":"#"},{"type":"null"}]},"byKey":{"type":"object","additionalProperties":{"$ref":"#"}}}}`,
 }
